@@ -91,7 +91,10 @@ func (o *MergeAndSortRulesOptimizer) Optimize(rules []*config_parser.RoutingRule
 		if len(mergingRule.AndFunctions) == 1 &&
 			len(rules[i].AndFunctions) == 1 &&
 			mergingRule.AndFunctions[0].Name == rules[i].AndFunctions[0].Name &&
-			mergingRule.AndFunctions[0].Not == rules[i].AndFunctions[0].Not &&
+			// Merging is only sound for positive conditions: f(a) -> x; f(b) -> x
+			// equals f(a, b) -> x, but !f(a) -> x; !f(b) -> x means !(a && b),
+			// whereas !f(a, b) would mean !(a || b).
+			!mergingRule.AndFunctions[0].Not && !rules[i].AndFunctions[0].Not &&
 			rules[i].Outbound.String(true, false, true) == mergingRule.Outbound.String(true, false, true) {
 			mergingRule.AndFunctions[0].Params = append(mergingRule.AndFunctions[0].Params, rules[i].AndFunctions[0].Params...)
 		} else {
